@@ -152,10 +152,29 @@ SEEDS3 = {
     "C20-6": ("C20", ["C20", "C09"], "new pre-check len(proof) > 63 returns ErrInvalidProof without counting, placed before the root comparison", "old = stored size and a proof of 64 or more lines"),
 }
 SEEDS2.update(SEEDS3)
+SEEDS4 = {
+    "C11-7": ("C11", ["C11"], "feedbastion Update retries the POST re-using one consumed bytes.Reader (retry posts an empty body or a suffix)", "a one-off transport fault or 502/503/504 on the first attempt, then looking at the retried body"),
+    "C11-8": ("C11", ["C11"], "feedbastion bastionClient builds the body in a shared bytes.Buffer whose lock is released before the POST", "two overlapping Update calls on one client, the second building its body before the first request was read"),
+    "C16-7": ("C16", ["C16"], "http server: singleflight around the checkpoint read keyed by the route template (same key for every log)", "GETs for two different IDs overlapping inside the storage read"),
+    "C16-8": ("C16", ["C16"], "http server lower-cases the requested log ID", "a GET whose ID is a re-capitalised spelling of a known ID"),
+    "C19-7": ("C19", ["C19"], "serverless fetcher grows a bytes.Buffer to resp.ContentLength before copying", "a response whose Content-Length header overstates the body by many orders of magnitude (>= 2^62)"),
+    "C19-8": ("C19", ["C19"], "pixel feeder: tileReader hoisted out of fetchProof captures FeedLog's long-lived context instead of the per-cycle one", "periodic mode, witness holding an older checkpoint, a log that answers the checkpoint but stalls on a tile request"),
+    "C14-7": ("C14", ["C14", "C13"], "feeder.Run skips a cycle when the log serves the same checkpoint bytes as last time; remembered before the submission succeeded", "one cycle in which the checkpoint fetch works but the proof fetch or the update fails for the whole interval, and the log does not grow afterwards"),
+    "C14-8": ("C14", ["C14", "C17"], "Main: logs and feeders kept in two slices indexed together although 'none' feeders are only in one", "a configuration with a Feeder: none entry listed before a polled one (the shipped logs.yaml has that shape)"),
+    "C12-7": ("C12", ["C12"], "config.NewLog derives the ID from strings.TrimRight(origin, \"/\") while everything else hashes the raw origin", "a configured origin ending in '/'"),
+    "C12-8": ("C12", ["C12"], "AsLogMap: local originID helper passes the origin as a format string (fmt.Fprintf(h, \"o:\"+origin))", "a configured origin containing '%'"),
+    "C17-7": ("C17", ["C17"], "LogInfo.UnmarshalYAML tidies the URL with path.Clean (drops the trailing slash that relative resolution needs)", "serverless/pixel entries whose URL path ends in '/' (7 shipped entries); only visible in WHICH URL is requested"),
+    "C17-8": ("C17", ["C17"], "pixel feeder derives a rate-limiter key with net.SplitHostPort(lURL.Host) and returns its error", "a shipped-style URL without an explicit port"),
+    "C20-7": ("C20", ["C20"], "success counter moved into signChkpt (counts at cosigning, before Set)", "Set failing after all checks passed: a lost optimistic race or a storage fault exactly at Set"),
+    "C20-8": ("C20", ["C20"], "reportInconsistent de-duplicates by the last offending raw checkpoint per log, returning above the counter increment", "two root-mismatch refusals for the same log with byte-identical forked checkpoints and no other fork in between"),
+    "C06-7": ("C06", ["C06"], "monolith.go opens SQLite with _journal_mode=MEMORY&_cache_size=-64 (pages spill into the file before COMMIT, the undo journal is only in RAM)", "cosigned checkpoints of ~45 KB or more and a kill between Exec and Commit"),
+    "C06-8": ("C06", ["C06", "C16"], "Main wraps the persistence in a latestCache: Set publishes the checkpoint to readers, then calls the real Set", "a read landing between the cache publish and the COMMIT, plus a SIGKILL in the same window"),
+}
+SEEDS2.update(SEEDS4)
 SRC = {}
 for _sid in SEEDS2:
     _pid, _k = _sid.split("-")
-    SRC[_sid] = f"/tmp/seed2/{_pid}/_out/{int(_k) - 2}" if int(_k) <= 4 else f"/tmp/seed3/{_pid}/_out/{int(_k) - 4}"
+    SRC[_sid] = f"/tmp/seed2/{_pid}/_out/{int(_k) - 2}" if int(_k) <= 4 else (f"/tmp/seed3/{_pid}/_out/{int(_k) - 4}" if int(_k) <= 6 else f"/tmp/seed4/{_pid}/_out/{int(_k) - 6}")
 SEEDS.update(SEEDS2)
 
 
